@@ -14,3 +14,22 @@ Fixpoint has_forall_int (f : cform) : bool :=
   | FForallInt _ _ => true
   end.
 Definition K_forall_int (f : cform) : bool := has_forall_int f.
+
+(* K_neg_count (open finding negated-count-recursive-needle): the constraint contains a `count`
+   atom in NEGATIVE polarity whose needle nonterminal is RECURSIVE (reachable from itself in the
+   grammar graph, Eval3.reachb g N N; reachability is not reflexive).  Observed on /repo:
+   `not count(start, "<num>", "2")` on <num> ::= <digit> | <digit><num> returns "5,9" (two <num>).
+   Negated count atoms with a NON-recursive needle and positive count atoms are outside the class
+   (harness/c01.py class_of mirrors it; failure code 16 only). *)
+From ISLA Require Eval3.
+
+Fixpoint neg_count_rec (g : grammar) (pol : bool) (f : cform) : bool :=
+  match f with
+  | FSemPred n (_ :: PStr needle :: _) =>
+      negb pol && str_eqb n s_count && Eval3.reachb g needle needle
+  | FSemPred _ _ | FSmt _ | FSPred _ _ => false
+  | FNot h => neg_count_rec g (negb pol) h
+  | FAnd fs | FOr fs => existsb (neg_count_rec g pol) fs
+  | FForall _ _ _ b | FExists _ _ _ b | FForallInt _ b | FExistsInt _ b => neg_count_rec g pol b
+  end.
+Definition K_neg_count (g : grammar) (f : cform) : bool := neg_count_rec g true f.
